@@ -924,6 +924,17 @@ def check_missing(case, rec):
     if e_arg.any():
         kwe["mask"] = e_arg.copy()
     _same(rec, dict(tags, enc="mixed"), "mixed-vs-removal", _ve(tags, pos, wrap(fe_m), edges, **kwe), ref)
+    # the caller keeps the objects and estimates again without the sentinel: the result is the one for freshly built equal inputs
+    held_f, held_p = _copy_field(wrap(fe_m)), _copy_pos(pos)
+    kwh = {k: (np.array(v, copy=True) if isinstance(v, np.ndarray) else v) for k, v in kwe.items()}
+    with common.quiet():
+        lib(gs.vario_estimate, held_p, held_f, np.array(edges, dtype=float), return_counts=True, _what="vario_estimate", _tags=tags, **kwh)
+        kw_plain = {k: v for k, v in kwh.items() if k != "no_data"}
+        o2 = lib(gs.vario_estimate, held_p, held_f, np.array(edges, dtype=float), return_counts=True, _what="vario_estimate", _tags=tags, **kw_plain)
+    o3 = _ve(tags, pos, wrap(fe_m), edges, **{k: v for k, v in kwe.items() if k != "no_data"})
+    require(bool(np.array_equal(np.asarray(o2[1], dtype=float), o3[1], equal_nan=True)) and bool(np.array_equal(np.asarray(o2[2]), o3[2])),
+            "second estimate on the caller's own field / position / mask objects (after a first call with no_data) differs from the estimate for freshly built equal inputs",
+            dict(tags, enc="mixed", kind="input_changed_by_call"))
     # (f) standard bins: masked points are removed before binning
     if case["stdbins"] and mall.any() and not mf.any() and case["mode"] != "dir":
         rec.label("stdbins")
@@ -1751,6 +1762,17 @@ def check_axis(case, rec):
         mixed = np.ma.array(np.where(mm, -3.0, mixed), mask=mm)
         d = _va(tags, mixed, direction=ax, estimator=est, no_data=nd)
         _vals(rec, tg, "axis mixed encodings vs NaN", d, base)
+        # the caller keeps one masked array and estimates twice on it: with the sentinel declared, then without (the sentinel cells
+        # are ordinary data then) - each result is the one for a freshly built equal input
+        keep_ = np.ma.array(np.array(mixed.data, dtype=np.double), mask=np.ma.getmaskarray(mixed).copy())
+        first = np.asarray(lib(gs.vario_estimate_axis, keep_, direction=ax, estimator=est, no_data=nd, _what="vario_estimate_axis", _tags=tags), dtype=float)
+        require(bool(np.array_equal(first, d, equal_nan=True)), "the same masked input gives another result when the array object is kept by the caller", dict(tags, rel="reused_input"))
+        again = np.asarray(lib(gs.vario_estimate_axis, keep_, direction=ax, estimator=est, _what="vario_estimate_axis", _tags=tags), dtype=float)
+        fresh = _va(tags, mixed, direction=ax, estimator=est)
+        rec.label("axis_reused_masked_input")
+        require(bool(np.array_equal(again, fresh, equal_nan=True)),
+                f"second estimate on the caller's masked array (after a first call with no_data={nd!r}) {again.tolist()} differs from the estimate for a freshly built equal input {fresh.tolist()}",
+                dict(tags, rel="reused_input", kind="input_changed_by_call"))
     # axis permutation: the variogram axis travels with the data
     p = list(case["axperm"])
     ft = np.transpose(f, p)
